@@ -20,7 +20,7 @@ EXPLANATION = ("CompactOrderedHashMap::{empty,len,is_empty,contains_key,get,get_
                "StateModel::extend (verbatim, Verus, any number of entries): the per-query model is the configured container with every declared (name, feature) inserted in order -- an existing name keeps its slot "
                "and takes the declared feature, new names are appended; refused exactly when a declaration meets a same-named feature that differs under StateFeature's ==; StateModel accessors: frame (unit c03_statemodel); "
                "SearchApp::build_search_instance (verbatim, Verus, callees through deterministic contracts): the per-query state model IS the configured model extended by the features collected for this query, and the cost model "
-               "and the frontier model are built against THAT model -- the one the search instance carries -- never the configured one")
+               "and the frontier model are built against THAT model -- the one the search instance carries -- never the configured one (the same unit carries SearchApp::run and its two oriented variants: see C01)")
 NOT_DECIDED = ("get_pair / keys / iter / to_vec / new on the HashMap-backed representation (sizes >= 5) are only exercised by concrete witnesses "
                "(Verus rejects their iterator-adapter text, CBMC cannot carry symbolic HashMap keys); StateModel::new / initial_state / iter (iterator adapters; witnesses); the clone pipeline at the head of extend (assumed equal container; witness); collect_features (HashMap pipelines: witness only)")
 ASSUMPTIONS = ["R6: key and value types instantiated at u64 (Eq/Hash/Clone laws of the real key types String/EdgeId assumed)",
